@@ -77,6 +77,13 @@ impl Num for BigDecimal {
                 // split into leading and trailing digits
                 let (lead, trail) = (&base_part[..loc], &base_part[loc + 1..]);
 
+                // a sign may only precede the leading digits: ".-5" is not a number
+                // (it would otherwise reach BigInt as "-5" and count the sign as a digit)
+                if trail.starts_with(|c| c == '+' || c == '-') {
+                    return Err(ParseBigDecimalError::Other(
+                        format!("Unexpected sign after decimal point when parsing '{}'", s)));
+                }
+
                 digit_buffer.reserve(lead.len() + trail.len());
                 // copy all leading characters into 'digits' string
                 digit_buffer.push_str(lead);
